@@ -148,6 +148,78 @@ func decodeInto(doc string, v restlicodec.Unmarshaler) error {
 	return v.UnmarshalRestLi(r)
 }
 
+// ---- phase 0b: the codec's writers used from many goroutines at once (each goroutine its own writer, as every request
+// does): the text each call produces must be what the same call produces alone (computed serially beforehand)
+func phaseCodec(n, iters int, stats map[string]int) {
+	type enc func(v float64, k int64, s string) string
+	encoders := map[string]enc{
+		"header": func(v float64, k int64, s string) string {
+			w := restlicodec.NewRor2HeaderWriter()
+			w.WriteMap(func(kw func(string) restlicodec.Writer) error {
+				kw("f").WriteFloat64(v)
+				kw("g").WriteFloat32(float32(v))
+				kw("k").WriteInt64(k)
+				kw("s").WriteString(s)
+				return nil
+			})
+			return w.Finalize()
+		},
+		"path": func(v float64, k int64, s string) string {
+			w := restlicodec.NewRor2PathWriter()
+			w.WriteArray(func(iw func() restlicodec.Writer) error {
+				iw().WriteFloat64(v)
+				iw().WriteInt64(k)
+				iw().WriteString(s)
+				iw().WriteBytes([]byte(s))
+				return nil
+			})
+			return w.Finalize()
+		},
+		"json": func(v float64, k int64, s string) string {
+			w := restlicodec.NewCompactJsonWriter()
+			w.WriteMap(func(kw func(string) restlicodec.Writer) error {
+				kw("f").WriteFloat64(v)
+				kw("k").WriteInt64(k)
+				kw("s").WriteString(s)
+				return nil
+			})
+			return w.Finalize()
+		},
+	}
+	value := func(g, i int) (float64, int64, string) {
+		return float64(g*1000003+i*17) + 0.0625*float64(i%16) + 1e-7*float64(g), int64(g)<<40 + int64(i), fmt.Sprintf("s(%d,%d)'", g, i)
+	}
+	if iters > 400 {
+		iters = 400
+	}
+	want := map[string][][]string{}
+	for name, e := range encoders {
+		want[name] = make([][]string, n)
+		for g := 0; g < n; g++ {
+			want[name][g] = make([]string, iters)
+			for i := 0; i < iters; i++ {
+				want[name][g][i] = e(value(g, i))
+			}
+		}
+	}
+	var wg sync.WaitGroup
+	for g := 0; g < n; g++ {
+		wg.Add(1)
+		go func(g int) {
+			defer wg.Done()
+			for i := 0; i < iters; i++ {
+				for name, e := range encoders {
+					if got := e(value(g, i)); got != want[name][g][i] {
+						violation("C17/codec/"+name, fmt.Sprintf("encoded concurrently: %s, alone: %s", got, want[name][g][i]), nil)
+					}
+				}
+			}
+		}(g)
+	}
+	wg.Wait()
+	stats["codec_encodings"] = n * iters * len(encoders)
+}
+
 // ---- phase 1: D2 resolver
 func phaseD2(n, iters int, stats map[string]int) {
 	h := d2.NewVerifHarness("S", "C")
@@ -320,6 +392,7 @@ func main() {
 	defer out.Flush()
 	stats := map[string]int{}
 	phaseCold(*n, stats)
+	phaseCodec(*n, *iters, stats)
 	phaseD2(*n, *iters, stats)
 	phaseServer(*n, *iters, stats)
 	phaseClient(*n, *iters, stats)
